@@ -20,9 +20,11 @@ def _flat(case):
 
 # M1 ------------------------------------------------------------------------------------------------
 def joint_impossible_combo(case, v=None):
-    """Some crossing combination is impossible only through factors outside the crossing (or only jointly):
-    it passes the per-level checks the library applies (no excluded crossed level; every crossed within-trial
-    derived level whose arguments are all in the crossing agrees with them) yet no trial can realise it."""
+    """Some crossing combination can occur in no trial, yet passes the per-level test the library applies when
+    it sizes the crossing (no excluded level in it; every crossed within-trial derived level is produced by
+    *some* choice of its arguments that agrees with the crossed levels it reads directly, all other arguments
+    free and not required to be consistent with each other): the combination is impossible only *jointly*,
+    e.g. two crossed derived factors over the same uncrossed factor, or through a chain of derived factors."""
     sp = _spec(case)
     fl = _flat(case)
     if fl is None or not fl.crossings:
@@ -39,9 +41,10 @@ def joint_impossible_combo(case, v=None):
             locally_bad = False
             for n in names:
                 f = F[n]
-                if f["kind"] == "derived" and not S.is_complex(sp, n) and all(dep in d for dep in f["deps"]):
-                    idx = f["table"].get(S.akey([d[dep] for dep in f["deps"]]))
-                    if idx is None or f["levels"][idx][0] != d[n]:
+                if f["kind"] == "derived" and not S.is_complex(sp, n):
+                    li = S.level_names(sp, n).index(d[n])
+                    doms = [[d[dep]] if dep in d else S.level_names(sp, dep) for dep in f["deps"]]
+                    if not any(f["table"].get(S.akey(list(a))) == li for a in itertools.product(*doms)):
                         locally_bad = True
             if not locally_bad:
                 return True
